@@ -414,6 +414,7 @@ func Run(r *evid.Run) {
 	wideUser(r)
 	nameCarriers(r)
 	appenders(r)
+	swallowed(r)
 	userOutputs(r)
 	c17.MarshalPolicing(r, "c02")
 	r.Outcomes(map[string]int64{"nil error: output validated": nOK.Load(), "error returned": nErr.Load()})
